@@ -8,6 +8,7 @@ import (
 	"context"
 	"fmt"
 	"os"
+	"strings"
 	"sync/atomic"
 	"time"
 
@@ -42,6 +43,7 @@ type scen struct {
 	quit      bool // direct: quit channel closed before the calls
 	callEnd   []int64
 	anomaly   string
+	doneCh    []chan struct{} // per writer: closed when its result is in
 	nilFaults bool
 }
 
@@ -50,6 +52,10 @@ func (s *scen) setup() {
 	s.rc = newRecConn(s.link.Client(), s.dlFail)
 	applyFaults(s.link.C2S, s.faults)
 	s.results = make([]result, len(s.frames))
+	s.doneCh = make([]chan struct{}, len(s.frames))
+	for i := range s.doneCh {
+		s.doneCh[i] = make(chan struct{})
+	}
 	s.launched = make([]int64, len(s.frames))
 	s.ctxEver = make([]bool, len(s.frames))
 	if s.preDone == nil {
@@ -88,6 +94,7 @@ func (s *scen) start(w *gocql.VerifC07Writer, t int) *writerCtl {
 	go func() {
 		n, err := w.WriteContext(ctx, s.frames[t])
 		s.results[t] = result{n: n, err: err, done: true}
+		close(s.doneCh[t])
 		close(wc.done)
 	}()
 	return wc
@@ -252,7 +259,41 @@ func (s *scen) directEvents() {
 		}
 		evs = append(evs, fmt.Sprintf("VWrite %d", who))
 	}
+	// writers that got the semaphore and were refused (an earlier write was torn): no connection call at all
+	dlCodes := map[int64]bool{}
+	for _, c := range s.dlFail {
+		dlCodes[c] = true
+	}
+	for t, r := range s.results {
+		if !r.done || r.n != 0 || r.err == nil || frameWritten(s, t) >= 0 {
+			continue
+		}
+		switch errName(r.err) {
+		case "ECanceled", "EDeadlineExceeded", "EConnClosed":
+			continue
+		}
+		if dlCodes[errCode(r.err)] {
+			continue
+		}
+		evs = append(evs, fmt.Sprintf("VWrite %d", t))
+	}
 	s.evs = evs
+}
+
+// tornReported: some writer has been told 0 < n < len(frame) so far.  That is exactly when the flusher has
+// noticed a torn buffer (the attribution loop's else branch with n > 0) and refuses everything that follows; with
+// a connection that breaks the io.Writer contract this can differ from what really happened on the wire.
+func (s *scen) tornReported() bool {
+	for t := range s.frames {
+		select {
+		case <-s.doneCh[t]:
+			if r := s.results[t]; r.done && r.n > 0 && r.n < len(s.frames[t]) {
+				return true
+			}
+		default:
+		}
+	}
+	return false
 }
 
 // frameWritten: index of the Write call that was handed frame t, or -1.
@@ -310,19 +351,56 @@ func (s *scen) newManual() *manualCoal {
 // launch starts writer t and waits until it is either enqueued or has returned.
 func (m *manualCoal) launch(t int) {
 	s := m.s
+	refused := s.preDone[t] || s.tornReported() // the flusher will answer at once instead of queueing the request
 	m.ws[t] = s.start(m.w, t)
+	hooked := false
 	select {
 	case <-m.enq:
+		hooked = true
+	case <-m.ws[t].done:
+	case <-time.After(watchdog):
+		s.anomaly = "writer neither handed to the flusher nor returned"
+		return
+	}
+	if hooked && refused {
+		if !waitDone(m.ws[t], time.Second) {
+			// the flusher queued a request whose context was done, or after a torn flush: it is going to write it
+			s.anomaly = fmt.Sprintf("writer %d was queued for writing although its context was done or an earlier flush had left a torn frame", t)
+			return
+		}
+	}
+	isDone := false
+	select {
+	case <-m.ws[t].done:
+		isDone = true
+		if !hooked {
+			// the hook runs before the writer reads its result, so its signal is there by now if it ran at all
+			select {
+			case <-m.enq:
+				hooked = true
+			default:
+			}
+		}
+	default:
+	}
+	switch {
+	case hooked && !isDone:
 		s.evs = append(s.evs, fmt.Sprintf("WEnq %d", t))
 		m.queued = append(m.queued, t)
 		if m.quitDone && !m.fquit {
 			// the flusher had not noticed quit yet; it will now
 			m.awaitQueuedEOF()
 		}
-	case <-m.ws[t].done:
+	case hooked && isDone:
+		// received by the flusher and answered at once (context done / an earlier flush was torn), or
+		// received and released by quit
+		s.evs = append(s.evs, fmt.Sprintf("WEnq %d", t))
+		if errName(s.results[t].err) == "EEOF" && m.quitDone && !m.fquit {
+			m.queued = append(m.queued, t)
+			m.awaitQueuedEOF()
+		}
+	default:
 		m.noteReturned(t)
-	case <-time.After(watchdog):
-		s.anomaly = "writer neither enqueued nor returned"
 	}
 }
 
@@ -335,7 +413,7 @@ func (m *manualCoal) noteReturned(t int) {
 	case "EEOF":
 		s.evs = append(s.evs, fmt.Sprintf("WQuit %d", t))
 	default:
-		s.evs = append(s.evs, fmt.Sprintf("WEnq %d", 9999)) // impossible without being enqueued
+		s.evs = append(s.evs, fmt.Sprintf("WEnq %d", t)) // answered by the flusher (refused): the model must agree
 	}
 }
 
@@ -470,6 +548,17 @@ func (s *scen) runCoalStall(round0, round1 []int, stallOff int, cancelWaiting []
 		}
 		s.evs = append(s.evs, fmt.Sprintf("WCtx %d %s", t, errName(s.results[t].err)))
 	}
+	// writers whose context was done from the start can only take the ctx branch while the flusher is busy
+	for _, t := range round1 {
+		if s.preDone[t] && !cancelled[t] {
+			if !waitDone(m.ws[t], watchdog) {
+				s.anomaly = "writer with a finished context never returned"
+				return
+			}
+			cancelled[t] = true
+			s.evs = append(s.evs, fmt.Sprintf("WCtx %d %s", t, errName(s.results[t].err)))
+		}
+	}
 	s.link.C2S.ReleaseStall()
 	select {
 	case <-m.flushed:
@@ -484,58 +573,37 @@ func (s *scen) runCoalStall(round0, round1 []int, stallOff int, cancelWaiting []
 		waitDone(m.ws[t], watchdog)
 	}
 	m.queued = nil
-	// now the blocked writers get through: wait until each has either been received by the flusher or returned
+	// now every remaining blocked writer is received by the flusher (one hook signal each), which either queues
+	// it or - if the flush was torn - answers it at once
 	pending := 0
 	for _, t := range round1 {
 		if !cancelled[t] {
 			pending++
 		}
 	}
-	deadline := time.Now().Add(watchdog)
-	gotEnq := 0
-	for {
-		for more := true; more; {
-			select {
-			case <-m.enq:
-				gotEnq++
-			default:
-				more = false
-			}
-		}
-		done := 0
-		for _, t := range round1 {
-			if !cancelled[t] {
-				select {
-				case <-m.ws[t].done:
-					done++
-				default:
-				}
-			}
-		}
-		if gotEnq+done >= pending {
-			break
-		}
-		if time.Now().After(deadline) {
-			s.anomaly = "blocked writers neither enqueued nor returned"
+	for i := 0; i < pending; i++ {
+		select {
+		case <-m.enq:
+		case <-time.After(watchdog):
+			s.anomaly = "blocked writers were not received by the flusher"
 			return
 		}
-		time.Sleep(50 * time.Microsecond)
 	}
-	time.Sleep(200 * time.Microsecond)
-	var returned, enq []int
+	torn := s.tornReported()
+	var enq []int
 	for _, t := range round1 {
 		if cancelled[t] {
 			continue
 		}
-		select {
-		case <-m.ws[t].done:
-			returned = append(returned, t)
-		default:
+		if torn {
+			if !waitDone(m.ws[t], time.Second) {
+				s.anomaly = fmt.Sprintf("writer %d was queued for writing although an earlier flush had left a torn frame", t)
+				return
+			}
+			s.evs = append(s.evs, fmt.Sprintf("WEnq %d", t))
+		} else {
 			enq = append(enq, t)
 		}
-	}
-	for _, t := range returned {
-		m.noteReturned(t)
 	}
 	if len(enq) > 0 {
 		before := len(s.rc.calls())
@@ -649,7 +717,9 @@ func (s *scen) runCoalTimed(window time.Duration) {
 	}
 	for t := range s.frames {
 		if !assigned[t] {
-			s.evs = append(s.evs, fmt.Sprintf("WEnq %d", 9999)) // unaccounted writer: let the model disagree
+			// no Write call and not a member of a failing flush: received by the flusher after a torn flush and
+			// refused - or unaccounted for, then the model disagrees
+			s.evs = append(s.evs, fmt.Sprintf("WEnq %d", t))
 		}
 	}
 }
@@ -672,19 +742,19 @@ func (s *scen) callsTerm() string {
 }
 
 func (s *scen) term() string {
-	var cd []int
+	var cd []string
 	for t, b := range s.ctxEver {
 		if b {
-			cd = append(cd, t)
+			cd = append(cd, hlib.Pair(hlib.Z(int64(t)), "ECanceled")) // the harness only ever cancels
 		}
 	}
 	wire := s.link.C2S.Bytes()
 	evs := hlib.List(s.evs)
 	if s.coalesce {
-		return fmt.Sprintf("CCoal %s %s %s %s %s %s %s %s %s", hlib.Bool(s.hasTo), framesTerm(s.frames), intsTerm(cd),
+		return fmt.Sprintf("CCoal %s %s %s %s %s %s %s %s %s", hlib.Bool(s.hasTo), framesTerm(s.frames), hlib.List(cd),
 			faultsTerm(s.faults), dlFailTerm(s.dlFail), evs, resultsTerm(s.results), hlib.ZList(wire), s.callsTerm())
 	}
-	return fmt.Sprintf("CDirect %s %s %s %s %s %s %s %s %s %s", hlib.Bool(s.hasTo), framesTerm(s.frames), intsTerm(cd), hlib.Bool(s.quit),
+	return fmt.Sprintf("CDirect %s %s %s %s %s %s %s %s %s %s", hlib.Bool(s.hasTo), framesTerm(s.frames), hlib.List(cd), hlib.Bool(s.quit),
 		faultsTerm(s.faults), dlFailTerm(s.dlFail), evs, resultsTerm(s.results), hlib.ZList(wire), s.callsTerm())
 }
 
@@ -713,7 +783,11 @@ func (s *scen) emit(o *hlib.Out) {
 	nontrivial := len(s.faults) > 0 || len(s.frames) > 1 || len(s.dlFail) > 0
 	idx := o.Case(s.kind, nontrivial, s.term())
 	if s.anomaly != "" {
-		o.Violate(idx, "hang", "", s.anomaly, s.describe())
+		kind := "hang"
+		if strings.Contains(s.anomaly, "queued for writing") {
+			kind = "queued-after-torn-frame-or-done-context"
+		}
+		o.Violate(idx, kind, "", s.anomaly, s.describe())
 		hangs++
 		if hangs >= 3 {
 			// something is badly wrong (a writer that never returns): report what we have instead of
@@ -780,7 +854,7 @@ func (s *scen) monitors(o *hlib.Out, idx int) {
 			viol("cancelled-but-wrote", "", fmt.Sprintf("writer %d returned %v although %d bytes of its frame are on the wire", t, r.err, accepted))
 		}
 		if s.preDone[t] && accepted > 0 {
-			viol("ctx-done-before-start-wrote", "F-C07-2", fmt.Sprintf("writer %d: context was already done when writeContext was called, yet %d bytes of its frame were written (result %d, %v)", t, accepted, r.n, r.err))
+			viol("ctx-done-before-start-wrote", "", fmt.Sprintf("writer %d: context was already done when writeContext was called, yet %d bytes of its frame were written (result %d, %v)", t, accepted, r.n, r.err))
 		}
 	}
 	// the wire is whole frames, each once, then at most one torn frame
@@ -815,45 +889,19 @@ func (s *scen) wireShape(o *hlib.Out, idx int, wire []byte, calls []*callRec) {
 		return
 	}
 	detail := fmt.Sprintf("bytes on the wire are not <whole frames><at most one torn frame>: %d whole frame(s) parsed, %d unparsable bytes follow", len(frames), len(tail))
-	// Is this exactly the known finding?  Only if every Write call carried one distinct request frame and no two
-	// calls overlapped in time: then the stream is the calls' accepted prefixes in call order, and the only way
-	// to miss the shape is a torn call followed by a later call that put bytes on the wire.
-	clean := true
-	seen := map[int]bool{}
+	// a torn Write followed by more bytes is reported under its own name (it used to be known finding F-C07-1,
+	// fixed: both writers now refuse to write after a torn Write)
 	var torn *callRec
 	for _, c := range calls {
 		if c.isDl {
 			continue
 		}
-		t := frameIndex(s.frames, c.p)
-		if t < 0 || seen[t] || c.overlap {
-			clean = false
+		if torn != nil && c.n > 0 && c.start > torn.end {
+			o.Violate(idx, "frame-after-torn-frame", "", detail, s.describe())
+			return
 		}
-		seen[t] = true
 		if torn == nil && c.n > 0 && c.n < len(c.p) {
 			torn = c
-		}
-	}
-	if clean && torn != nil {
-		inFlight, later := 0, 0
-		for _, c := range calls {
-			if c.isDl || c == torn || c.n == 0 || c.start < torn.end {
-				continue
-			}
-			if s.launched[frameIndex(s.frames, c.p)] < torn.end {
-				inFlight++
-			} else {
-				later++
-			}
-		}
-		if inFlight > 0 {
-			o.Violate(idx, "frame-after-torn-frame", "F-C07-1", detail, s.describe())
-			return
-		}
-		if later > 0 {
-			// the later writer entered after the failure had been reported: at the level of the bare writers
-			// nothing forbids that (exec's addCall/closed gate does; see the connection-level scenarios)
-			return
 		}
 	}
 	o.Violate(idx, "wire-shape", "", detail, s.describe())
